@@ -38,6 +38,9 @@ Qual(k) == IF Imports[k].alias # "" THEN Imports[k].alias ELSE Imports[k].declar
 Cfg == [style: Styles, recv: BOOLEAN, reverse: BOOLEAN, srcPtr: BOOLEAN, dstPtr: BOOLEAN,
         retErr: BOOLEAN, nargs: 0..MaxArgs, named: BOOLEAN, namedRes: BOOLEAN, imp: Imps, pkg: Pkgs,
         recvBlank: BOOLEAN,      \* the receiver name of the notation is the blank identifier: it cannot be referred to
+        clash: {"none", "srcIsDst", "srcIsErr", "srcBlank", "argIsDst", "resIsSrc"},
+                                 \* how the user's own names meet the names the tool gives by default: the source parameter is
+                                 \* called dst / err / _, the first additional argument dst, the result src
         twin: BOOLEAN]           \* another converter interface of the file has a method of the SAME name with the SAME receiver
                                  \* name on ANOTHER source type: two methods of two types - the header of this one is what it is
 
@@ -58,12 +61,17 @@ ArgDefNames  == <<"arg0", "arg1", "arg2", "arg3">>
 \* ---- names
 \* the receiver name of the notation: an ordinary Go identifier, underscore included
 SrcName(c) == IF c.recv THEN "r_c"
-              ELSE IF c.named THEN "from"
+              ELSE IF c.named THEN (CASE c.clash = "srcIsDst" -> "dst" [] c.clash = "srcIsErr" -> "err" [] c.clash = "srcBlank" -> "_" [] OTHER -> "from")
               ELSE IF c.reverse THEN "dst" ELSE "src"
 \* parameters and results are named independently of each other (Go names all of a list or none)
-DstName(c) == IF c.namedRes THEN "to"
+DstName(c) == IF c.namedRes THEN (IF c.clash = "resIsSrc" THEN "src" ELSE "to")
               ELSE IF c.reverse THEN "src" ELSE "dst"
-ArgName(c, i) == IF c.named THEN ArgDeclNames[i] ELSE ArgDefNames[i]
+ArgName(c, i) == IF c.named THEN (IF c.clash = "argIsDst" /\ i = 1 THEN "dst" ELSE ArgDeclNames[i]) ELSE ArgDefNames[i]
+\* the names of one header: they must be distinct, and the operands the body works on must have one
+HeaderNames(c) == <<SrcName(c), DstName(c)>> \o [i \in 1..c.nargs |-> ArgName(c, i)] \o (IF c.retErr THEN <<"err">> ELSE << >>)
+NameClash(c) == LET h == HeaderNames(c) IN
+                  \/ Cardinality({h[i] : i \in DOMAIN h}) # Len(h)
+                  \/ SrcName(c) = "_" \/ DstName(c) = "_"
 
 P(n, t) == [name |-> n, type |-> t]
 Args(c) == [i \in 1..c.nargs |-> P(ArgName(c, i), ArgTypes[i])]
@@ -73,6 +81,11 @@ NoRecv == P("", "")
 \* plain one are explored with the parameter names left to the tool
 Init == cfg \in {c \in Cfg : (c.imp = "none" => c.pkg = "ext") /\ (c.pkg # "ext" => ~c.named /\ ~c.namedRes)
                        /\ (c.recvBlank => c.recv /\ ~c.reverse /\ c.nargs = 0 /\ ~c.named /\ ~c.namedRes /\ c.imp = "none")
+                       /\ (c.clash # "none" => c.imp = "none" /\ ~c.recvBlank /\ ~c.twin /\ c.nargs <= 1)
+                       /\ (c.clash \in {"srcIsDst", "srcIsErr", "srcBlank"} => c.named /\ ~c.recv)
+                       /\ (c.clash = "srcIsErr" => ~(c.namedRes /\ c.retErr))   \* (err *S) (to *D, err error) is no valid method declaration
+                       /\ (c.clash = "argIsDst" => c.named /\ c.nargs = 1)
+                       /\ (c.clash = "resIsSrc" => c.namedRes)
                        /\ (c.twin => c.recv /\ ~c.recvBlank /\ ~c.named /\ ~c.namedRes /\ c.imp = "none" /\ c.nargs <= 1)} /\ pc = "validate" /\ shape = [reject |-> FALSE, recv |-> NoRecv, params |-> << >>, results |-> << >>]
 
 Reject == shape' = [reject |-> TRUE, recv |-> NoRecv, params |-> << >>, results |-> << >>] /\ pc' = "done"
@@ -84,6 +97,7 @@ Validate ==
      ELSE IF cfg.reverse /\ cfg.nargs > 0 THEN Reject              \* :reverse cannot be used with additional arguments
      ELSE IF cfg.recv /\ cfg.imp \in {"src", "both"} THEN Reject   \* an imported type cannot be a receiver
      ELSE IF cfg.recvBlank THEN Reject                             \* a receiver called _ could not be copied from
+     ELSE IF NameClash(cfg) THEN Reject                            \* two things of one name, or an operand without a name: no valid header exists
      ELSE pc' = "assemble" /\ UNCHANGED shape
   /\ UNCHANGED cfg
 
@@ -127,16 +141,17 @@ ErrLast == Acc => LET n == Len(shape.results) IN
                     ELSE \A i \in DOMAIN shape.results : shape.results[i].type # "error"
 \* declared names survive
 NamesPreserved == Acc /\ cfg.named =>
-                    /\ (~cfg.recv => \E i \in DOMAIN shape.params : shape.params[i] = P("from", SrcType(cfg)))
-                    /\ \A i \in 1..cfg.nargs : \E j \in DOMAIN shape.params : shape.params[j].name = ArgDeclNames[i]
+                    /\ (~cfg.recv => \E i \in DOMAIN shape.params : shape.params[i] = P(SrcName(cfg), SrcType(cfg)))
+                    /\ \A i \in 1..cfg.nargs : \E j \in DOMAIN shape.params : shape.params[j].name = ArgName(cfg, i)
 ResultNamePreserved == Acc /\ cfg.namedRes =>
                     \E i \in DOMAIN shape.params \cup DOMAIN shape.results :
-                       \/ (i \in DOMAIN shape.params /\ shape.params[i].name = "to")
-                       \/ (i \in DOMAIN shape.results /\ shape.results[i].name = "to")
+                       \/ (i \in DOMAIN shape.params /\ shape.params[i].name = DstName(cfg))
+                       \/ (i \in DOMAIN shape.results /\ shape.results[i].name = DstName(cfg))
 \* the illegal combinations, and only they, are rejected
 IllegalRejected == Done => (shape.reject <=> \/ (cfg.reverse /\ (cfg.style = "return" \/ cfg.nargs > 0))
                                              \/ (cfg.recv /\ cfg.imp \in {"src", "both"})
-                                             \/ cfg.recvBlank)
+                                             \/ cfg.recvBlank
+                                             \/ NameClash(cfg))
 \* all names in a header are distinct
 DistinctNames == Acc => LET all == (IF cfg.recv THEN <<shape.recv.name>> ELSE << >>) \o Names(shape.params) \o Names(shape.results) IN
                           Cardinality({all[i] : i \in DOMAIN all}) = Len(all)
